@@ -69,6 +69,13 @@ def streams(rng, tier):
         out.append(Case("sorted-wide", "v.sort", items))
         out.append(Case("law-sortperm", "law.v.sortperm", [str(rng.randrange(10**6))] + items, kind="law"))
         out.append(Case("law-triples", "law.v.triple", items[:3], kind="law"))
+    if not q:       # magnitudes just below CPython's 4300-digit int() limit (the model takes seconds for each, so thorough tier only)
+        a, b, c3 = gen.HUGE4K
+        for x, y in [(a, b), (b, a), (a, a), (c3, a)]:
+            for tpl in ["%d", "1.%d", "%d!1", "1+%d", "1.post%d"]:
+                v1, v2 = tpl % x, ("0" * 40 + tpl if tpl[0] == "%" else tpl) % y
+                out.append(Case("pairs-4k", "v.cmph", [v1, v2]))
+                out.append(Case("law-rank", "law.v.rank", [v1, v2, "<" if x < y else ">" if x > y else "="], kind="law"))
     return out
 
 def compare(c, i, m):
